@@ -1,0 +1,43 @@
+//go:build verif
+
+package stack
+
+// Contracts for the deductive checker in /verif (comment-only file; adds no code).
+//
+//@ func Stack.SetCapacity
+//@   requires !isnil(s)
+//@   ensures len(s.elems) == old(len(s.elems)) && cap(s.elems) >= c
+//@   ensures forall k int :: {s.elems[k]} {old(s.elems[k])} 0 <= k && k < len(s.elems) ==> s.elems[k] == old(s.elems[k])
+//@   ensures s.elems == old(s.elems) || fresh(s.elems)
+//@   modifies s.elems
+//
+//@ func Stack.Elements
+//@   ensures !isnil(s) ==> result == s.elems
+//@   ensures isnil(s) ==> isnil(result) && len(result) == 0
+//
+//@ func Stack.Len
+//@   requires !isnil(s)
+//@   ensures result == len(s.elems)
+//
+//@ func Stack.Empty
+//@   requires !isnil(s)
+//@   ensures result <==> len(s.elems) == 0
+//
+//@ func Stack.Push
+//@   requires !isnil(s)
+//@   ensures len(s.elems) == old(len(s.elems)) + 1
+//@   ensures forall k int :: {s.elems[k]} {old(s.elems[k])} 0 <= k && k < old(len(s.elems)) ==> s.elems[k] == old(s.elems[k])
+//@   ensures s.elems[old(len(s.elems))] == e
+//@   ensures (base(s.elems) == old(base(s.elems)) && off(s.elems) == old(off(s.elems)) && cap(s.elems) == old(cap(s.elems))) || fresh(s.elems)
+//@   ensures old(len(s.elems)) == old(cap(s.elems)) ==> fresh(s.elems)
+//@   modifies s.elems, s.elems[len(s.elems)] if len(s.elems) < cap(s.elems)
+//
+//@ func Stack.Pop
+//@   requires !isnil(s) && len(s.elems) > 0
+//@   ensures result == old(s.elems[len(s.elems)-1])
+//@   ensures s.elems == old(s.elems[0:len(s.elems)-1])
+//@   modifies s.elems
+//
+//@ func Stack.Peek
+//@   requires !isnil(s) && len(s.elems) > 0
+//@   ensures result == s.elems[len(s.elems)-1]
